@@ -56,6 +56,8 @@ fn main() {
     "C13" => dispatch!(props::c13::C13),
     "C14" => dispatch!(props::c14::C14),
     "C15" => dispatch!(props::c15::C15),
+    "C18" => dispatch!(props::c18::C18),
+    "C19" => dispatch!(props::c19::C19),
     "C20" => dispatch!(props::c20::C20),
     other => {
       eprintln!("no check for property {other}");
